@@ -50,6 +50,20 @@ def save_meta(i, m):
     open(meta_path(i), "a").write("\n")
 
 
+def cmd_import_holds(a):
+    """a behaviour-preserving refactor: patch only, every check must stay silent"""
+    dst = os.path.join(SEEDED, a.id)
+    os.makedirs(dst, exist_ok=True)
+    shutil.copy(a.patch, os.path.join(dst, "patch.diff"))
+    if a.notes and os.path.exists(a.notes):
+        shutil.copy(a.notes, os.path.join(dst, "notes.md"))
+    m = {"id": a.id, "kind": "holds", "keeps_property": a.property, "breaks_property": None,
+         "origin": "independent sub-agent asked for a substantial behaviour-preserving refactor under which the property still holds",
+         "what": a.what or ""}
+    save_meta(a.id, m)
+    print("imported", a.id)
+
+
 def cmd_import(a):
     dst = os.path.join(SEEDED, a.id)
     os.makedirs(dst, exist_ok=True)
@@ -74,6 +88,13 @@ def confirm_one(i):
         r = sh(["git", "-C", d, "apply", p])
         if r.returncode:
             return False, "patch does not apply: " + r.stderr
+        if m.get("kind") == "holds":
+            r = sh("go build ./... && go vet . 2>&1 | tail -3; go test -vet=off -count=1 ./... 2>&1 | tail -6", cwd=d)
+            ok = "FAIL" not in r.stdout and "ok" in r.stdout
+            m["confirmed"] = {"suite_passes_with_patch": ok, "commands": ["git apply patch.diff", "go test -vet=off -count=1 ./..."],
+                              "base_commit": sh(["git", "-C", REPO, "rev-parse", "--short", "HEAD"]).stdout.strip()}
+            save_meta(i, m)
+            return ok, "suite_ok=%s (behaviour-preserving refactor: no demonstration)" % ok
         r = sh("go build ./... && go test -vet=off -count=1 ./... 2>&1 | tail -6", cwd=d)
         suite_ok = r.returncode == 0 and "FAIL" not in r.stdout and "ok" in r.stdout
         shutil.copytree(os.path.join(SEEDED, i, "demo"), os.path.join(d, "seed_demo"))
@@ -126,6 +147,9 @@ def main():
     pi = sub.add_parser("import")
     pi.add_argument("src"); pi.add_argument("id"); pi.add_argument("property")
     pi.add_argument("--needs"); pi.add_argument("--demo-cmd")
+    ph = sub.add_parser("import-holds")
+    ph.add_argument("patch"); ph.add_argument("id"); ph.add_argument("property")
+    ph.add_argument("--notes"); ph.add_argument("--what")
     pc = sub.add_parser("confirm"); pc.add_argument("ids", nargs="*")
     pr = sub.add_parser("run"); pr.add_argument("ids", nargs="*")
     pr.add_argument("-b", "--budget", default="20s"); pr.add_argument("--props", default=""); pr.add_argument("--seed", default="1")
@@ -133,6 +157,8 @@ def main():
     a = ap.parse_args()
     if a.cmd == "import":
         return cmd_import(a)
+    if a.cmd == "import-holds":
+        return cmd_import_holds(a)
     ids = a.ids or sorted(os.path.basename(os.path.dirname(p)) for p in glob.glob(os.path.join(SEEDED, "*", "meta.json")))
     bad = 0
     for i in ids:
@@ -145,6 +171,7 @@ def main():
             props = a.props.split(",") if a.props else CLAIMED
             res = run_one(i, props, a.budget, a.seed)
             target = m["breaks_property"]
+            holds = m.get("kind") == "holds"
             line = []
             for p, r in res.items():
                 if not isinstance(r, dict):
@@ -152,14 +179,19 @@ def main():
                 tag = {0: "silent", 1: "DETECTED", 2: "HARNESS-ERROR"}.get(r["exit"], "?")
                 line.append("%s:%s(%.0fs)" % (p, tag, r["wall_s"]))
             caught = isinstance(res.get(target), dict) and res[target]["exit"] == 1
-            print("%-8s target=%s %s  %s" % (i, target, "CAUGHT" if caught else "MISSED", " ".join(line)), flush=True)
+            if holds:
+                quiet = all(isinstance(r, dict) and r["exit"] == 0 for r in res.values())
+                caught = quiet
+                print("%-8s holds(%s) %s  %s" % (i, m.get("keeps_property"), "SILENT" if quiet else "FALSE-ALARM", " ".join(line)), flush=True)
+            else:
+                print("%-8s target=%s %s  %s" % (i, target, "CAUGHT" if caught else "MISSED", " ".join(line)), flush=True)
             for p, r in res.items():
                 if isinstance(r, dict) and r["exit"] == 1:
                     print("         %s" % r["first"])
                 if isinstance(r, dict) and r["exit"] == 2:
                     print("         %s stderr: %s" % (p, r["stderr"]))
             if a.record:
-                m["checks"] = {"budget": a.budget, "seed": a.seed, "results": res, "caught_by_target_check": caught,
+                m["checks"] = {"budget": a.budget, "seed": a.seed, "results": res, ("all_checks_silent" if holds else "caught_by_target_check"): caught,
                                "detected_by": [p for p, r in res.items() if isinstance(r, dict) and r["exit"] == 1]}
                 save_meta(i, m)
             bad += 0 if caught else 1
